@@ -48,13 +48,13 @@ CHECKS = {
                      "enumerated completely, bounds/levels are sampled.",
                 note="Trusted: oracles; documented ValueErrors of build_gsd counted, not judged. Known finding: GSDGenerator n>=2.",
                 ref="DESIGN.md §3 C13"),
-    "C15": dict(cat="exploration", tech="runtime monitor: totality/optimum-value oracle + adversarial search (random, pattern search) against the documented optimum",
+    "C15": dict(cat="exploration", tech="runtime monitor: totality/optimum-value oracle + adversarial search (random, pattern search from the best points and from the documented optimum) + threaded evaluation with statement-level yield injection",
                 text="Every single-objective benchmark in every accepted dimension is evaluated on corners, faces, interior and optimum "
                      "neighbourhood as Python and numpy floats; documented optimum value checked at documented coordinates; a "
                      "harness-side search tries to beat the documented optimum in the declared direction.",
                 note="A failed search is not a proof; tolerance 1e-3 as stated. Known finding: ModifiedEasom odd dimension.",
                 ref="DESIGN.md §3 C15"),
-    "C16": dict(cat="exploration", tech="runtime monitor: algebraic identity oracle (sum/norm with independently recomputed g) on random box points",
+    "C16": dict(cat="exploration", tech="runtime monitor: algebraic identity oracle (sum/norm with independently recomputed g) on random box points, re-used/moved/numpy-array designs and threaded evaluation with yield injection",
                 text="DTLZ1 sum, DTLZ2-4 norm, ZDT1 and bi-objective identities and non-negativity checked on thousands of box points "
                      "with position variables at and near the box ends, m=2..6.",
                 note="Trusted: 10-line recomputation of g; relative tolerance 1e-9.",
@@ -77,13 +77,13 @@ CHECKS = {
                      "every post-state is compared with an executable model.",
                 note="Trusted: the model in c19.py; single-threaded requests.",
                 ref="DESIGN.md §3 C19"),
-    "C05": dict(cat="exploration", tech="runtime monitor: call-log counting model on a harness-defined objective + field oracles (sign, rounding, marker) + taps on generator output and the scalar-optimiser bridge",
+    "C05": dict(cat="exploration", tech="runtime monitor: call-log counting model on a harness-defined objective + field oracles (sign, rounding, marker) + taps on generator output and the scalar-optimiser bridge; threaded batches under a controlled scheduler",
                 text="Mixed batches (serial and threaded), sweeps with every generator and SciPy/NLopt runs are observed at the client "
                      "boundary: the objective's call log must contain exactly one call per not-yet-evaluated design with its stored "
                      "vector, fields must satisfy the sign/rounding/marker rules, every optimiser query must be recorded with its true cost.",
                 note="Trusted: LoggingProblem call log (under a lock); IN_PROGRESS/FAILED designs out of scope.",
                 ref="DESIGN.md §3 C05"),
-    "C06": dict(cat="fault_enumeration", tech="fault injection: enumerated failure scripts at the objective boundary, executable reference model of the retry loop",
+    "C06": dict(cat="fault_enumeration", tech="fault injection: enumerated failure scripts at the objective boundary (serial, and threaded with a controlled scheduler that makes failures overlap), executable reference model of the retry loop",
                 text="Every single-design script of 0..5 transient failures x exception types, every non-transient type at every attempt, "
                      "(thorough) every two-design combination and threaded batches are injected through the harness objective; caller-"
                      "visible exception, failed list, attempts, replacement vectors and final records are compared with the model.",
@@ -117,7 +117,7 @@ CHECKS = {
                      "references, repeated ids, both connection modes; stores left by real runs of eight algorithms.",
                 note="Trusted: independent JSON normaliser; NaN and integer-valued costs excluded.",
                 ref="DESIGN.md §3 C10"),
-    "C11": dict(cat="fault_enumeration", tech="crash injection: os._exit at every Python-level SQL/objective event (sqlite3.connect proxy), SIGKILL at seeded instants, strace-injected SIGKILL inside write syscalls; post-mortem verifier",
+    "C11": dict(cat="fault_enumeration", tech="crash injection: os._exit at every Python-level SQL/objective event (sqlite3.connect proxy), SIGKILL at seeded instants, kernel kill (SIGXFSZ via RLIMIT_FSIZE) inside the write() of a commit, strace-injected SIGKILL inside write syscalls (thorough); post-mortem verifier",
                 text="Four writers are killed at every enumerated crash point after the store exists; each death is followed by a "
                      "post-mortem (view opens, definitions intact, returned synchronisations present with matching costs, no partial "
                      "row, integrity_check ok). Thorough adds kills inside pwrite64/unlink of SQLite's commit via strace fault injection.",
@@ -163,7 +163,7 @@ def main():
                                        "independent oracles judge every observed execution"}],
         "checks": checks,
         "not_applicable": na,
-        "notes": "Runtime monitoring only. Exit 0 held / 1 VIOLATION / 2 INCONCLUSIVE. Known findings: known_findings.json.",
+        "notes": "Runtime monitoring only. Exit 0 held / 1 VIOLATION / 2 INCONCLUSIVE. Known findings: known_findings.json. Every workload family re-uses its objects across steps (state carried across calls is part of what is observed). Self-validation: selftest/ (187 mutants), seeded/ (60 independent seeded changes), tools/recheck_seeds.sh.",
     }
     with open(os.path.join(HERE, "MANIFEST.json"), "w") as f:
         json.dump(man, f, indent=1)
